@@ -157,6 +157,12 @@ class Run:
               'violations': self.violations}
         if self.states < 1 or self.transitions < 1:
             raise MachineryError('no TLC run contributed states: refusing to write model_checking evidence')
+        if os.environ.get('VERIF_REPO', '/repo') != '/repo' and not os.environ.get('VERIF_REPLAY_MODE'):
+            # development run against a scratch copy of the repository: never touches the evidence of /repo
+            print(f'[{self.pid}] (VERIF_REPO={os.environ["VERIF_REPO"]}: evidence file not written)')
+            st = 'VIOLATED' if self.violations else 'held'
+            print(f'[{self.pid}] {st}: tier={self.tier} seed={self.seed} states={self.states} traces={self.traces} known={sum(self.known_seen.values())} violations={self.violations} wall={wall:.1f}s')
+            return 1 if self.violations else 0
         if getattr(self, 'no_evidence', False) or os.environ.get('VERIF_REPLAY_MODE'):          # --replay: a single case, not a run that describes coverage
             print(f'[{self.pid}] replay: violations={self.violations} known={sum(self.known_seen.values())}')
             return 1 if self.violations else 0
